@@ -129,6 +129,11 @@ def alphabet(U):
                 ops.append((side + '<<1', x, y))
             for v in dids:
                 ops.append((side + '.remove_all_id', x, v))
+    if U.alphabet == 'attach':
+        # quick-tier trim for the duplicate-id universe: ordering operations are covered by U3
+        drop = {'move_before', 'move_after', 'move_none', 'move_both', 'sort', 'sort_bad', 'reorder', 'list+=',
+                'pred+=', 'succ+=', 'pred<<1', 'succ<<1', 'pred.remove_all_id', 'succ.remove_all_id'}
+        ops = [o for o in ops if o[0] not in drop and not (o[0] == 'insert' and o[2] not in (0, 1))]
     if U.ctor:
         for x in tasks:
             for y in list(tasks) + [None]:
